@@ -507,3 +507,263 @@ def check_atom_line_eval(chk) -> Optional[Dict[str, Tuple[int, int]]]:
             else:
                 chk.ok(rule, fm.where, text)
     return {f: c for f, c in layout.items() if c is not None}
+
+
+# --------------------------------------------------------------------------------------------------------------------
+# round 4: the four round trips of the statement, every step interpreted (write_pdb, write_cif, parse_pdb_atoms, parse_cif_atoms)
+# --------------------------------------------------------------------------------------------------------------------
+class _CifSink:
+    """What write_cif hands to the mmcif library: DataContainer / DataCategory / IoAdapterPy as recording stubs."""
+
+    def __init__(self):
+        self.written: List[Any] = []
+
+    def env(self) -> Dict[str, Any]:
+        sink = self
+
+        class Category:
+            _folder_stub = True
+
+            def __init__(self, name, attributeNameList=None, rowList=None, *a, **k):
+                self.name, self.attrs, self.rows = name, list(attributeNameList or []), [list(r) for r in (rowList or [])]
+
+            def append(self, row):
+                self.rows.append(list(row))
+
+            def appendAttribute(self, a):
+                self.attrs.append(a)
+
+            def getAttributeList(self):
+                return list(self.attrs)
+
+            def getRowList(self):
+                return [list(r) for r in self.rows]
+
+        class Container:
+            _folder_stub = True
+
+            def __init__(self, name, *a, **k):
+                self.name, self.cats = name, []
+
+            def append(self, cat):
+                self.cats.append(cat)
+
+        class Adapter:
+            _folder_stub = True
+
+            def writeFile(self, path, containerList=None, *a, **k):
+                sink.written = list(containerList or [])
+                return True
+
+        from checks.c08e import _TmpFile
+
+        class Tmp(_TmpFile):
+            def read(self):
+                return "<mmCIF text of the categories handed to the writer>"
+
+        return {"DataContainer": Container, "DataCategory": Category, "IoAdapterPy": Adapter, "IoAdapterCore": Adapter, "tempfile": Obj("tempfile", NamedTemporaryFile=Tmp), "os": Obj("os", remove=lambda p: None, unlink=lambda p: None)}
+
+    def atom_site(self):
+        for c in self.written:
+            for cat in getattr(c, "cats", []):
+                if getattr(cat, "name", None) == "atom_site":
+                    return cat
+        return None
+
+
+def module_function(repo, name: str, extra: Dict[str, Any]):
+    from sa.frame import pd_namespace
+
+    fi = repo.func(M, name)
+    m = repo.module(M)
+    names, todo = set(), [astq.callee_name(c) for c in ast.walk(fi.node) if isinstance(c, ast.Call)]
+    while todo:
+        n = todo.pop()
+        if n in names or n not in m.funcs or n == name:
+            continue
+        names.add(n)
+        todo += [astq.callee_name(c) for c in ast.walk(m.funcs[n].node) if isinstance(c, ast.Call)]
+    env: Dict[str, Any] = {"io": Obj("io", StringIO=Buffer), "StringIO": Buffer, "pd": pd_namespace(), "object": object, "str": str, "bytes": bytes}
+    env.update(extra)
+    env.update(module_callables(repo, M, names=names, outer=env))
+    return fi, func_callable(repo, M, fi.node, env, max_steps=60000)
+
+
+CROSS_ROWS = [
+    # record, serial, name, altLoc, resName, chain, resSeq, iCode, x, y, z, occupancy, B, element, charge, model
+    ("ATOM", 1, "P", None, "G", "A", -2, None, 1.5, -2.25, 30.125, 1.0, 20.5, "P", None, 1),
+    ("ATOM", 2, "C4'", "A", "G", "A", -2, None, -11.001, 0.0, 7.0, 0.5, 5.25, "C", None, 1),
+    ("ATOM", 3, "HO5'", "B", "PSU", "A", 10, "A", 100.0, 200.5, -300.75, 0.25, 99.99, "H", None, 1),
+    ("HETATM", 4, "MG", None, "MG", "B", 301, None, 4.0, 5.0, 6.0, 1.0, 12.0, "MG", "2+", 1),
+    ("HETATM", 5, "CL", None, "CL", "B", 302, None, -4.0, -5.0, -6.0, 0.75, 13.0, "CL", "1-", 1),
+    ("ATOM", 6, "P", None, "G", "A", -2, None, 1.75, -2.5, 30.25, 1.0, 21.5, "P", None, 2),
+]
+PDB_FIELDS = ["record_type", "serial", "name", "altLoc", "resName", "chainID", "resSeq", "iCode", "x", "y", "z", "occupancy", "tempFactor", "element", "charge", "model"]
+TOL = {"x": 0.0005, "y": 0.0005, "z": 0.0005, "occupancy": 0.005, "tempFactor": 0.005}  # the rows carry 3 resp. 2 decimals: they come back as written
+
+
+def _rows_of(frame, fields: List[str]) -> List[Dict[str, Any]]:
+    from sa.frame import isna
+
+    out = []
+    for i in range(len(frame.index)):
+        out.append({f: (None if f not in frame._cols or isna(frame._cols[f][i]) else frame._cols[f][i]) for f in fields})
+    return out
+
+
+def _field_same(f: str, a: Any, b: Any) -> bool:
+    if a in (None, "") and b in (None, ""):
+        return True
+    if a is None or b is None:
+        return False
+    if f in TOL:
+        try:
+            return abs(float(a) - float(b)) <= TOL[f]
+        except (TypeError, ValueError):
+            return False
+    if f == "charge":
+        def norm_charge(v):
+            t = str(v).strip()
+            if len(t) == 2 and t[0].isdigit() and t[1] in "+-":
+                return int(t[0]) * (1 if t[1] == "+" else -1)
+            try:
+                return int(float(t))
+            except ValueError:
+                return t
+        return norm_charge(a) == norm_charge(b)
+    return str(a) == str(b)
+
+
+def _near(a: Any, b: Any) -> bool:
+    """numerically the same value up to a lost decimal: a matter of precision, not of which field goes where"""
+    try:
+        return a is not None and b is not None and abs(float(a) - float(b)) < 0.06
+    except (TypeError, ValueError):
+        return False
+
+
+def check_cross_paths_eval(chk) -> bool:
+    """PDB->PDB, mmCIF->mmCIF, PDB->mmCIF->PDB and mmCIF->PDB->mmCIF on representative rows, every writer and reader interpreted (the
+    mmcif library is a recording stub between write_cif and parse_cif_atoms).  Rules pdb-round-trip, cif-to-cif, field-map-pdb-to-cif,
+    field-map-cif-to-pdb, value-domain, null-agreement."""
+    from checks.c08e import _Category, V2CifReader, V2Reader
+    from sa.frame import Frame, frame_from_rows, isna
+
+    repo = chk.repo
+    wc = repo.func(M, "write_cif")
+    bad: Dict[str, List[str]] = {}
+    try:
+        sink = _CifSink()
+        _, w_pdb = module_function(repo, "write_pdb", {})
+        _, w_cif = module_function(repo, "write_cif", sink.env())
+        r_pdb = V2Reader(repo)
+        r_cif = V2CifReader(repo)
+
+        def to_pdb_text(table):
+            t = w_pdb(table, None)
+            if not isinstance(t, str):
+                raise Unknown("write_pdb(df, None) does not return text")
+            return t.split("\n")
+
+        def to_cif(table):
+            sink.written = []
+            w_cif(table, None)
+            cat = sink.atom_site()
+            if cat is None:
+                raise Unknown("write_cif does not hand an atom_site category to the mmcif writer")
+            if any(len(r) != len(cat.attrs) for r in cat.rows):
+                bad.setdefault("field-map-pdb-to-cif", []).append(f"write_cif writes rows of {sorted({len(r) for r in cat.rows})} values under {len(cat.attrs)} item names: the columns shift")
+                raise Raised("AssertionError", "ragged atom_site category")
+            r_cif.category = _Category(cat.attrs, cat.rows)
+            res = r_cif.call("data_rnapolis\n#\n")
+            if not isinstance(res, Frame):
+                raise Unknown("parse_cif_atoms does not return a table")
+            return res, cat
+
+        def read_pdb(lines):
+            return r_pdb.read([l for l in lines if l != ""])
+
+        src = [dict(zip(PDB_FIELDS, r)) for r in CROSS_ROWS]
+        pdb_table = read_pdb(to_pdb_text(frame_from_rows(src, "PDB")))  # a table as the reader types it
+        # PDB -> PDB
+        for k, (a, b) in enumerate(zip(src, _rows_of(pdb_table, PDB_FIELDS))):
+            for f in PDB_FIELDS:
+                if not _field_same(f, a[f], b[f]):
+                    bad.setdefault("pdb-round-trip", []).append(f"PDB->PDB: {f} of row {k + 1} is {a[f]!r}, read back as {b[f]!r}")
+        if len(pdb_table.index) != len(src):
+            bad.setdefault("pdb-round-trip", []).append(f"PDB->PDB: {len(src)} rows written, {len(pdb_table.index)} read back")
+        # PDB -> mmCIF: every item carries its PDB field
+        cif_table, cat = to_cif(pdb_table)
+        for k, a in enumerate(src):
+            if k >= len(cif_table.index):
+                break
+            for f, items in PDB_TO_CIF_ROW.items():
+                for it in items:
+                    got = None if it not in cif_table._cols or isna(cif_table._cols[it][k]) else cif_table._cols[it][k]
+                    if not _field_same(f, a[f], got):
+                        rule = "value-domain" if f == "charge" else ("null-agreement" if a[f] is None else ("numeric-format" if _near(a[f], got) else "field-map-pdb-to-cif"))
+                        bad.setdefault(rule, []).append(f"PDB->mmCIF: {f} = {a[f]!r} of row {k + 1} arrives in item {it} as {got!r}")
+        if len(cif_table.index) != len(src):
+            bad.setdefault("field-map-pdb-to-cif", []).append(f"PDB->mmCIF: {len(src)} rows written, {len(cif_table.index)} read back")
+        # PDB -> mmCIF -> PDB
+        back = read_pdb(to_pdb_text(cif_table))
+        for k, (a, b) in enumerate(zip(src, _rows_of(back, PDB_FIELDS))):
+            for f in PDB_FIELDS:
+                if not _field_same(f, a[f], b[f]):
+                    rule = "value-domain" if f == "charge" else ("numeric-format" if _near(a[f], b[f]) else "field-map-cif-to-pdb")
+                    bad.setdefault(rule, []).append(f"PDB->mmCIF->PDB: {f} of row {k + 1} is {a[f]!r}, comes back as {b[f]!r}")
+        # mmCIF -> mmCIF (a table with items PDB does not know, missing values of both kinds)
+        extra = []
+        for k, a in enumerate(src):
+            row = {it: a[f] for f, items in PDB_TO_CIF_ROW.items() for it in items}
+            row["pdbx_formal_charge"] = None if a["charge"] is None else (int(a["charge"][0]) * (1 if a["charge"][1] == "+" else -1))
+            row.update({"label_entity_id": "1" if k < 3 else "2", "label_seq_id": None if a["record_type"] == "HETATM" else 40 + k, "pdbx_sifts_xref_db_name": "PDB" if k % 2 else None})
+            # label items that differ from the author items: the PDB fields are the author's
+            row.update({"label_asym_id": {"A": "C", "B": "D"}[a["chainID"]], "label_atom_id": a["name"].replace("'", "*"), "label_comp_id": a["resName"].lower()})
+            extra.append(row)
+        r_cif.category = _Category(list(extra[0]), [["?" if v is None else (f"{v:.3f}" if isinstance(v, float) else str(v)) for v in r.values()] for r in extra])
+        c0 = r_cif.call("data_src\n#\n")
+        c1, _ = to_cif(c0)
+        for it in c0._cols:
+            for k in range(len(c0.index)):
+                a0 = None if isna(c0._cols[it][k]) else c0._cols[it][k]
+                a1 = None if it not in c1._cols or k >= len(c1.index) or isna(c1._cols[it][k]) else c1._cols[it][k]
+                same = (a0 is None and a1 is None) or (a0 is not None and a1 is not None and (str(a0) == str(a1) or _field_same("x", a0, a1)))
+                if not same:
+                    bad.setdefault("null-agreement" if a0 is None else ("numeric-format" if _near(a0, a1) else "cif-to-cif"), []).append(f"mmCIF->mmCIF: item {it} of row {k + 1} is {a0!r}, read back as {a1!r}")
+        if len(c1.index) != len(c0.index):
+            bad.setdefault("cif-to-cif", []).append(f"mmCIF->mmCIF: {len(c0.index)} rows written, {len(c1.index)} read back")
+        # mmCIF -> PDB -> mmCIF on the items PDB carries
+        c2, _ = to_cif(read_pdb(to_pdb_text(c0)))
+        for f, items in PDB_TO_CIF_ROW.items():
+            it = items[-1] if len(items) == 2 else items[0]  # the author item where both exist
+            for k in range(min(len(c0.index), len(c2.index))):
+                a0 = None if isna(c0._cols[it][k]) else c0._cols[it][k]
+                a2 = None if it not in c2._cols or isna(c2._cols[it][k]) else c2._cols[it][k]
+                if not _field_same(f, a0, a2):
+                    bad.setdefault("value-domain" if f == "charge" else "field-map-cif-to-pdb", []).append(f"mmCIF->PDB->mmCIF: item {it} of row {k + 1} is {a0!r}, comes back as {a2!r}")
+    except Unknown as ex:
+        chk.ok("cross-path-eval", wc.where, f"the round trips are not evaluable end to end ({str(ex)[:90]}): the pinned-form rules decide")
+        return False
+    except Raised as ex:
+        if not bad:
+            chk.ok("cross-path-eval", wc.where, f"a representative table is refused ({ex.name}): the pinned-form rules decide")
+            return False
+    texts = {
+        "pdb-round-trip": "evaluated end to end (write_pdb -> parse_pdb_atoms): every field of every row comes back",
+        "cif-to-cif": "evaluated end to end (write_cif -> parse_cif_atoms): every item of every row comes back, also items PDB does not know",
+        "field-map-pdb-to-cif": "evaluated: every mmCIF item of a PDB row carries its own PDB field (label and author items alike), rows and items stay aligned",
+        "field-map-cif-to-pdb": "evaluated: PDB->mmCIF->PDB and mmCIF->PDB->mmCIF give back record type, serial, names, alternate location, chain, number, insertion code, coordinates, occupancy, B, element and model",
+        "value-domain": "evaluated: formal charges survive both cross paths (2+ <-> 2, 1- <-> -1)",
+        "null-agreement": "evaluated: absent values written by either writer are absent values for the reader of the format",
+        "numeric-format": "evaluated: coordinates keep three decimals, occupancy and B-factor two, on every path",
+    }
+    with evidence(chk, *texts):
+        for rule, text in texts.items():
+            if rule in bad:
+                chk.violation(rule, wc.where, "; ".join(bad[rule][:3]), K(wc, f"cross:{rule}"), found=bad[rule][:6])
+            else:
+                chk.ok(rule, wc.where, text)
+                if rule in ("field-map-pdb-to-cif",):
+                    chk.ok(rule, wc.where, text + " [second cross path]")
+    return True
